@@ -233,7 +233,13 @@ def eval_opt(case: dict) -> dict:
                 viol.append(_violation(prop, k, **f))
         if "c04" in want:
             for f in checks.check_c04(ctx):
-                viol.append(_violation("C04", f.pop("kind"), **f))
+                k = f.pop("kind")
+                if k.endswith("-load-fails") and rec.trace_complete and "blame" not in f:
+                    try:
+                        f["blame"] = checks.blame(ctx, {"kind": "set", "voc": "source", "cost": False}, f["instance"], only_unsafe=True)
+                    except Exception as exc:  # pylint: disable=broad-exception-caught
+                        f["blame"] = {"step": "unknown", "error": str(exc)[:100]}
+                viol.append(_violation("C04", k, **f))
         if "c07" in want:
             for f in checks.check_c07_structure(ctx):
                 viol.append(_violation("C07", f.pop("kind"), **f))
